@@ -110,12 +110,12 @@ Definition enc_obs (o : obs) : sx :=
   | ORepeated t n => tagged 2 [of_n (f64_bits t); of_n n]
   end.
 Definition enc_dims (d : list (bytes * bytes)) : sx := L (map (fun p => L [B (fst p); B (snd p)]) d).
-(* the unit travels as the name a formatter prints; a ValidationError as its Display text *)
+(* the unit travels as the name a formatter prints; a ValidationError as a fixed token *)
 Definition enc_vcall (c : vcall) : sx :=
   match c with
   | VNone => tagged 0 []
   | VString s => tagged 1 [B s]
-  | VError msgs => tagged 2 [of_string (str_join ", "%str msgs)]
+  | VError _ => tagged 2 [of_string "error"%str]   (* the wording is not compared: a fixed token on both sides *)
   | VMetric os u dims fl => tagged 3 [L (map enc_obs os); of_string (unit_name u); enc_dims dims; of_option of_n fl]
   end.
 
@@ -152,7 +152,7 @@ Definition c19_value_holds (x : sx) : sx :=
   end.
 
 (* ---------------------------------------------------------------------------- a Mean fed by record_value calls *)
-(* case (4 tree), tree = (8 u (v ..)) or (4 (8 u (v ..)) to): -> ((result ..) call), result = () for Ok or ("messages")
+(* case (4 tree), tree = (8 u (v ..)) or (4 (8 u (v ..)) to): -> ((result ..) call), result = () for Ok or ("error")
    for Err, call = what the final Mean (bare, or wrapped in the target unit) writes *)
 Definition mean_seq_of (v : value) : option (tag * list value) :=
   match v with
@@ -161,7 +161,7 @@ Definition mean_seq_of (v : value) : option (tag * list value) :=
   | _ => None
   end.
 Definition enc_result (msgs : list str) : sx :=
-  match msgs with [] => L [] | _ => L [of_string (str_join ", "%str msgs)] end.
+  match msgs with [] => L [] | _ => L [of_string "error"%str] end.
 Definition c19_mean_model (x : sx) : sx :=
   let v := dec_value 64 (sx_arg x 0) in
   match mean_seq_of v with
